@@ -1,4 +1,5 @@
 import Netconan.Generated.SrcSecrets
+import Netconan.Props.C18
 /-!
 # The translated source is the hand-written model (secret formats)
 
@@ -16,5 +17,93 @@ theorem check_format_tie (fs : List Regex.Re) (val : List Char) :
     Src.check_sensitive_item_format fs val = Secrets.classify fs val := by
   unfold Src.check_sensitive_item_format Secrets.classify
   simp only [Id.run, bind, pure]
+
+
+/-! ## `_anonymize_value` -/
+open Secrets in
+/-- the six format `if`s of the source render the pseudonym as `renderAs` does -/
+theorem tryValue_decrypt (val : List Char) (s : Lookup) :
+    Py.tryValue (Juniper.decrypt val) none s =
+      .ok ((match Juniper.decrypt val with | .ok p => some p | .error _ => none), s) := by
+  rcases Props.C18.decrypt_total val with ⟨p, hp⟩ | he
+  · simp [hp, Py.tryValue]
+  · simp [he, Py.tryValue]
+
+open Secrets in
+/-- the six format `if`s of the source render the pseudonym as `renderAs` does -/
+theorem render_chain (x : Ext) (salt val base : List Char) (f : Fmt) (s : Lookup) {β : Type}
+    (k : List Char → Py.L β) :
+    (do
+      let anon_val := base
+      let anon_val ← (if (f == Fmt.type7) then do let anon_val := type7 9 anon_val; pure anon_val else do pure anon_val : Py.L _)
+      let anon_val ← (if (f == Fmt.numeric) then do let anon_val := numericOf anon_val; pure anon_val else do pure anon_val : Py.L _)
+      let anon_val ← (if (f == Fmt.hex) then do let anon_val := hexOf anon_val; pure anon_val else do pure anon_val : Py.L _)
+      let anon_val ← (if (f == Fmt.md5) then do
+          let old_salt_size := md5SaltLen val
+          let anon_val := x.md5crypt old_salt_size anon_val
+          pure anon_val else do pure anon_val : Py.L _)
+      let anon_val ← (if (f == Fmt.sha512) then do let anon_val := x.sha512crypt anon_val; pure anon_val else do pure anon_val : Py.L _)
+      let anon_val ← (if (f == Fmt.jun9) then do
+          let anon_val := (← Py.lift (Juniper.encrypt anon_val (some salt)))
+          pure anon_val else do pure anon_val : Py.L _)
+      k anon_val) s =
+    (match renderAs x salt f (md5SaltLen val) base with
+     | .error e => .error e
+     | .ok a => k a s) := by
+  cases f <;> simp [renderAs, Py.lift]
+  cases Juniper.encrypt base (some salt) <;> simp
+
+open Secrets in
+/-- **`_anonymize_value` as written in the source is the model's `anonymizeValue`**, for every value, salt and lookup table -/
+theorem anonymize_value_tie (x : Ext) (fs : List Regex.Re) (salt raw : List Char) (lk : Lookup) :
+    Src.anonymize_value x fs raw salt lk = anonymizeValue x fs salt raw lk := by
+  unfold Src.anonymize_value anonymizeValue
+  generalize extractEnclosing (raw.length + 1) raw [] [] = e
+  obtain ⟨h, val, t⟩ := e
+  simp only []
+  by_cases hr : x.isReserved val = true
+  · simp [hr]
+  · simp only [hr, Bool.false_eq_true, ↓reduceIte]
+    by_cases he : val.isEmpty = true
+    · simp [he, Py.truthy, Py.Truthy.truthy]
+    · simp only [he, Py.truthy, Py.Truthy.truthy, Bool.not_false, Bool.not_true, Bool.false_eq_true, ↓reduceIte]
+      have hdec : (if id (startsWith val junMagic) = true then Py.tryValue (Juniper.decrypt val) none else pure none : Py.L _) lk
+          = .ok (decryptedOf val, lk) := by
+        unfold decryptedOf
+        by_cases hm : startsWith val junMagic = true
+        · simp only [hm, id, ↓reduceIte, tryValue_decrypt]
+          rfl
+        · simp [hm]
+      simp only [Py.lbind_apply, hdec, Py.lookup_apply, check_format_tie]
+      unfold anonCore
+      generalize decryptedOf val = d
+      cases hg : lk.get val with
+      | some a => simp [Py.lkGet, hg]
+      | none =>
+        simp only [Option.isSome_none, Bool.false_eq_true, ↓reduceIte]
+        cases d with
+        | none =>
+          simp only [Py.optIn, Bool.false_eq_true, ↓reduceIte, Option.bind_none]
+          cases hf : classify fs val <;> simp [renderAs, Py.lift, Py.lkSet, Py.lbind_apply]
+          cases Juniper.encrypt (pseudonym lk.length) (some salt) <;> simp
+        | some p =>
+          simp only [Py.optIn, Option.bind_some]
+          cases hgp : lk.get p with
+          | some a =>
+            simp [Py.lkGetOpt, Py.lkGet, hgp, Py.lift]
+            cases Juniper.encrypt a (some salt) <;> simp
+          | none =>
+            simp only [Py.lbind_apply, Py.lookup_apply, hgp, Option.isSome_none, Bool.false_eq_true, ↓reduceIte]
+            by_cases hpe : p.isEmpty = true
+            · cases hf : classify fs val <;> simp [renderAs, Py.lift, Py.lkSet, Py.lbind_apply, hpe]
+              cases Juniper.encrypt (pseudonym lk.length) (some salt) <;> simp
+            · cases hf : classify fs val <;>
+                simp only [renderAs, Py.lift, Py.lkSet, Py.lkSetOpt, Py.lbind_apply, Py.lpure_apply, hpe, Bool.not_false, Bool.not_true,
+                  Bool.false_eq_true, ↓reduceIte, beq_self_eq_true, reduceCtorEq, beq_iff_eq]
+              case jun9 =>
+                cases Juniper.encrypt (pseudonym lk.length) (some salt) with
+                | error e => rfl
+                | ok c => simp only []; cases Juniper.decrypt c <;> rfl
+              all_goals (generalize Juniper.decrypt _ = r; cases r <;> rfl)
 
 end Netconan.SrcTie
